@@ -219,6 +219,83 @@ def part_grid_reductions(chk):
         chk.count('grid reduction configurations' + (' (plot-only rank)' if plot else ''))
 
 
+def part_setup_restart(chk):
+    """set-up, setupSave (bcast iff no folder name), checkpoint write and the restart set-up (setupFromFile), with and without a
+    plot-only rank: every member must issue the same collectives on the same communicators"""
+    import shutil
+    common.use_repo(h5=True)
+    from pygyro.initialisation.setups import setupCylindricalGrid, setupFromFile
+    from pygyro.utilities.savingTools import setupSave
+    from pygyro.model.process_grid import compute_2d_process_grid
+    rng = chk.rng
+    work = tempfile.mkdtemp(prefix='pgc06s')
+    cwd = os.getcwd()
+    os.chdir(work)
+    try:
+        for it in range(chk.n(6, 30)):
+            while True:
+                nranks = rng.choice([2, 3, 4, 5])
+                plot = rng.random() < 0.7
+                draw = rng.randrange(nranks) if plot else 0
+                npts = [rng.choice([4, 5, 6]), 8, rng.choice([4, 6]), rng.choice([6, 7])]
+                try:
+                    compute_2d_process_grid(npts, nranks - (1 if plot else 0))
+                    break
+                except RuntimeError:
+                    continue
+            lay = rng.choice(['flux_surface', 'v_parallel', 'poloidal'])
+            named = rng.random() < 0.5
+            folder = os.path.join(work, 'run%d' % it) if named else None
+            t_save = rng.choice([0, 7, 120])
+
+            def body_write():
+                # a run without plot-only rank sets up, announces/creates its folder and writes a checkpoint
+                comm = MPI.COMM_WORLD
+                grid, constants, t = setupCylindricalGrid(npts=npts, layout=lay, comm=comm, allocateSaveMemory=True, eps=0.1)
+                f = setupSave(constants, folder, comm)
+                grid.writeH5Dataset(f, t_save)
+                return f
+
+            def body():
+                # ... and a later run (possibly with a plot-only rank) resumes from it
+                comm = MPI.COMM_WORLD
+                f = fname[0]
+                g2, c2, t2 = setupFromFile(f, comm=comm, plotThread=plot, drawRank=draw, allocateSaveMemory=True)
+                lo = g2.getMin(draw)
+                hi = g2.getMax(draw)
+                g2.setLayout('v_parallel')
+                return (os.path.basename(f), int(t2), lo is not None, hi is not None)
+            nw = nranks - (1 if plot else 0)
+            fname = [None]
+            case = {'nranks': nranks, 'plotThread': plot, 'drawRank': draw, 'npts': npts, 'layout': lay, 'folder_given': named, 'time': t_save}
+            for d in os.listdir(work):
+                if d.startswith('simulation_'):
+                    shutil.rmtree(os.path.join(work, d), ignore_errors=True)
+            case_w = dict(case, phase='set-up + setupSave + checkpoint write', nranks=nw)
+            refw = run_policies(chk, nw, body_write, case_w, 'set-up / save', policies=())
+            if refw is None:
+                continue
+            if len(set(refw.values())) != 1:
+                chk.fail('C06:setup-disagreement', 'ranks disagree on the save folder: %s' % (refw.values(),), case_w)
+                continue
+            fname[0] = refw.values()[0]
+            ref = run_policies(chk, nranks, body, case, 'restart set-up', policies=('reverse', 'random'))
+            for d in os.listdir(work):
+                shutil.rmtree(os.path.join(work, d), ignore_errors=True)
+            if ref is None:
+                continue
+            vals = ref.values()
+            if len({v[0] for v in vals}) != 1 or any(v[1] != t_save for v in vals):
+                chk.fail('C06:setup-disagreement', 'ranks disagree on the save folder or the restart time: %s' % (vals,), case)
+            chk.case(('setup', nranks, plot, draw, tuple(npts), lay, named), nontrivial=plot,
+                     sample=dict(case, rank0_ops=[t[1] for t in ref.traces[0]][:14]) if it == 0 else None)
+            chk.traces_validated += nranks
+            chk.count('set-up/restart configurations' + (' (plot-only rank)' if plot else ''))
+    finally:
+        os.chdir(cwd)
+        shutil.rmtree(work, ignore_errors=True)
+
+
 def part_driver(chk):
     """the real driver (setup, setupSave bcast, DiagnosticCollector.reduce, allreduce, checkpoint writes) for one step"""
     import driver_util as du
@@ -380,6 +457,7 @@ def run(chk):
     finally:
         drv.close()
     part_grid_reductions(chk)
+    part_setup_restart(chk)
     part_driver(chk)
     chk.assumptions = ['real MPI implements blocking collectives matched per communicator in program order (the abstract machine of Model/Collectives.lean); '
                        'the simulated MPI implements that machine',
